@@ -1,4 +1,5 @@
 import inspect
+import warnings
 from functools import wraps
 from itertools import chain
 
@@ -316,7 +317,14 @@ def propagate_rebin_uncertainties(uncertainty, data, mask, operation, operation_
     new_uncertainty.parent_nddata = parent_nddata
     for j, mask_slice in enumerate(mask1):
         i = j + 1
-        cumul_data = operation(data[:i+1]) if mask is False else operation(data[:i+1][idx[:i+1]])
+        if mask is False:
+            cumul_data = operation(data[:i+1])
+        else:
+            # Select from the plain array: the contributing members may be none at all so far
+            # (leading members masked or NaN), which the nan-functions cannot handle on masked arrays.
+            with warnings.catch_warnings():
+                warnings.simplefilter("ignore", RuntimeWarning)
+                cumul_data = operation(np.ma.getdata(data[:i+1])[idx[:i+1]])
         data_slice = astropy.nddata.NDData(data=data[i], mask=mask_slice,
                                            uncertainty=uncertainty[i])
         new_uncertainty = new_uncertainty.propagate(propagation_operation, data_slice,
